@@ -589,6 +589,17 @@ func genBundle(c *ctx, cached bool) {
 			validateAll(s)
 			rec(coqw.App("BHeader", coqw.N(s)), w.headerObs(b))
 		}
+		if !cached && r.P(1, 8) {
+			// the bundle of an empty header (one empty non-macaroon entry) and its copies (finding F14)
+			s := parseHdr(rng.Pick(r, []string{"", "FlyV1 ", " ", ",", "FlyV1"}))
+			rec(coqw.App("BLen", coqw.N(s)), []int64{int64(w.slots[s].Len())})
+			rec(coqw.App("BHeader", coqw.N(s)), w.headerObs(w.slots[s]))
+			d := newSlot()
+			w.slots[d] = w.slots[s].Clone()
+			rec(coqw.App("BClone", coqw.N(d), coqw.N(s)), nil)
+			rec(coqw.App("BLen", coqw.N(d)), []int64{int64(w.slots[d].Len())})
+			rec(coqw.App("BHeader", coqw.N(d)), w.headerObs(w.slots[d]))
+		}
 		if !cached && r.P(1, 6) {
 			// ONE token must clear all the accesses of a call: two verified tokens for different organisations, a request
 			// about each -- every request is cleared by some token, no token clears both
